@@ -109,12 +109,42 @@ def replay_record(rec):
         return ("violation", {"clause": "result differs from the block-structured / indentation meaning of the text",
                               "text": s, "observed": obs, "expected": rec["ideal"],
                               "known": agrees(obs, rec["mach"]) and rec["dev"] != "none"})
+    # the same text reached through `$source` + import inside a selected / an unselected clause of an outer block:
+    # selected -> exactly the nodes of the text (or its failure), unselected -> nothing of it takes effect
+    if rec.get("_sourced") and not rec["u"]:
+        for selected in (True, False):
+            obs, s = observe_sourced(rec["text"], selected)
+            exp = rec["ideal"] if selected else {"ok": True, "nodes": []}
+            if not agrees(obs, exp):
+                return ("violation", {"clause": "a text sourced and imported inside a%s clause %s" % (" selected" if selected else "n unselected",
+                                                "takes effect exactly as written" if selected else "has no effect"),
+                                      "text": s, "observed": obs, "expected": exp, "known": False})
     return ("unspecified" if rec["u"] else "ok", None)
+
+
+def observe_sourced(text, selected):
+    os.makedirs(C.WORK, exist_ok=True)
+    path = os.path.join(C.WORK, f"sourced.{os.getpid()}.dip")
+    with open(path, "w") as f:
+        f.write(D.render_lines(text, None, 0, False))
+    s = f"@case {'true' if selected else 'false'}\n  $source s = {path}\n  {{s?*}}\n@end\n"
+    r = D.parse_dip(s)
+    try:
+        os.remove(path)
+    except OSError:
+        pass
+    if r[0] == "ok":
+        try:
+            return {"ok": True, "nodes": D.observe_nodes(r[1])}, s + "--- " + path + ":\n" + D.render_lines(text, None, 0, False)
+        except Exception as e:
+            return {"ok": False, "nodes": [], "err": "data(): " + type(e).__name__}, s
+    return {"ok": False, "nodes": [], "err": r[1]}, s
 
 
 def judge(V, recs, seed):
     for i, r in enumerate(recs):
         r["_seed"] = seed * 104729 + i
+        r["_sourced"] = (i + seed) % 3 == 0 and len(r["text"]) >= 2
     res = C.pmap(replay_record, recs)
     for rec, (st, det) in zip(recs, res):
         if st == "violation":
